@@ -43,7 +43,8 @@ RULE = ("exhaustive histories up to length 4/5 over {new Emp, new Mgr, new Org, 
         "(re-evaluated query objects, diamond hierarchy, clear, classes defined in the middle of the history after "
         "their ancestors were queried, temporaries created and discarded back to back, lazily consumed evaluations advanced "
         "one next() at a time with instances of the queried class / a subclass created or dropped in between, container-like "
-        "Symbols that are falsy while empty) + random histories of 4-18 "
+        "Symbols that are falsy while empty, instances made by copy / deepcopy / pickle / to_dao().from_dao() incl. nested "
+        "ones) + random histories of 4-18 "
         "operations over 9 classes plus classes defined on the way, relations, explicit-domain queries; non-trivial = at least one query returned at least one instance; "
         "distinct by case text")
 
@@ -102,6 +103,19 @@ def generate(rng, tier, n):
             cases.append(_case([["churn", 0, k, c], ["new", 50, c], ["query", c], ["churn", 60, k, c], ["query", 0],
                                 ["drop", 50], ["churn", 80, k, c], ["new", 95, c], ["query", c]],
                                ("family", "churn"), "exhaustive"))
+    # every creation path: constructor, copy, deepcopy, pickle round trip, to_dao(..).from_dao() (in-memory DAO round
+    # trip through the ORM interface generated by the current ORMatic), nested instances re-created with their holder
+    for how in ("copy", "deepcopy", "pickle", "dao"):
+        for c, T in ((10, 10), (11, 10), (11, 11)):
+            cases.append(_case([["new", 0, c], ["clone", 1, 0, how], ["query", T], ["drop", 0], ["query", T],
+                                ["clone", 3, 1, how], ["drop", 1], ["query", T]], ("family", "creation", how), "exhaustive"))
+        cases.append(_case([["new", 0, 11], ["newholder", 1, 0], ["clone", 2, 1, how], ["query", 12], ["query", 10],
+                            ["drop", 0], ["drop", 1], ["query", 10], ["drop", 2], ["query", 10], ["query", 12]],
+                           ("family", "creation", how), "exhaustive"))
+    for how in ("copy", "deepcopy", "pickle"):
+        for c, T in ((0, 0), (5, 4), (7, 4), (9, 0)):
+            cases.append(_case([["new", 0, c], ["clone", 1, 0, how], ["query", T], ["drop", 0], ["query", T]],
+                               ("family", "creation", how), "exhaustive"))
     # container-like Symbols (class 9 defines __len__): alive but falsy while empty, truthiness changing between queries
     for T in (9, 0):
         cases.append(_case([["new", 0, 9], ["query", T], ["query", T]], ("family", "falsy"), "exhaustive"))
@@ -139,9 +153,11 @@ def generate(rng, tier, n):
                                 ["churn", 60, k, c], ["new", 70, c], ["query", 0], ["rel", 5, 70, 50], ["query", c]],
                                ("family", "churn"), "exhaustive"))
     for _ in range(n):
-        g = _sg.Gen(rng, classes=rng.choice([(1, 2, 3), (1, 2, 3), (0, 1, 2, 3, 4, 5, 6, 7, 9), (2, 3, 9), (4, 5, 6, 7)]))
+        g = _sg.Gen(rng, classes=rng.choice([(1, 2, 3), (1, 2, 3), (0, 1, 2, 3, 4, 5, 6, 7, 9), (2, 3, 9), (4, 5, 6, 7),
+                                             (10, 11, 12, 4), (10, 11, 5, 9)]))
         ops = g.history(rng.randint(4, 18), w_query=3.0, w_clear=0.3, w_defclass=rng.choice([0.0, 0.8, 1.5]),
-                        w_churn=rng.choice([0.0, 0.0, 0.6]), w_step=rng.choice([0.0, 0.0, 3.0, 5.0]), w_bag=rng.choice([0.0, 1.0]))
+                        w_churn=rng.choice([0.0, 0.0, 0.6]), w_step=rng.choice([0.0, 0.0, 3.0, 5.0]), w_bag=rng.choice([0.0, 1.0]),
+                        w_clone=rng.choice([0.0, 1.0, 2.0]))
         for key in g.iter_keys:
             ops += [["qnext", key]] * rng.randint(0, 6)
         ops.append(["query", rng.choice([0, 2])])
@@ -152,6 +168,9 @@ def generate(rng, tier, n):
             tags.append("churn")
         if any(op[0] == "qstart" for op in ops):
             tags.append("stepwise")
+        for op in ops:
+            if op[0] == "clone" and "creation-" + op[3] not in tags:
+                tags.append("creation-" + op[3])
         if any(op[0] == "clear" for op in ops):
             tags.append("clear")
         if any(op[0] == "evalq" for op in ops):
